@@ -149,7 +149,6 @@ def nSegs (path : Bytes) : List Bytes :=
   let f := if hasSuffixB dotP (B ".p") then (f.set (f.length - 2) (dotP.take (dotP.length - 2))).take (f.length - 1) else f
   f.drop 3
 
-set_option maxHeartbeats 1600000 in
 /-- `ParseTilePath(path)` whenever the running value of the `NNN` elements stays in the int64 range (`Fits`; otherwise the
     Go code wraps around, to be rejected by the final `path != t.Path()`, and the checked translation reports overflow);
     `len(path)` is an int (the code computes `len(f) - 2`). -/
